@@ -614,9 +614,11 @@ class TempoBackend(BaseTempoBackend):
         """
         ToDo
         """
-        self._step = 0
         self.initialize_mps_mpo()
         self._state = self._initial_state
+        # mark as initialised only once the network has been set up, such
+        # that a failed initialisation is repeated by the next compute call
+        self._step = 0
         return self._step, copy(self._state)
 
     def compute_step(self) -> Tuple[int, ndarray]:
@@ -743,9 +745,10 @@ class MeanFieldTempoBackend():
 
     def initialize(self) -> Tuple[int, ndarray, complex]:
         """Initialize each TEMPO instance. """
-        self._step = 0
         for backend in self._backend_list:
             backend.initialize_mps_mpo()
+        # mark as initialised only once the networks have been set up
+        self._step = 0
         return self._step, deepcopy(self._state_list), self._field
 
     def compute_step(self) -> Tuple[int, List[ndarray], complex]:
